@@ -89,11 +89,6 @@ fn gen_site(rng: &mut Rng, ctx_scope: char, n: &mut u32) -> Site {
             };
             // respect or violate each arity independently
             let np = if rng.below(3) == 0 { rng.below(6) } else { dnp };
-            let nq = if rng.below(3) == 0 { 1 + rng.below(5) } else { dnq };
-            let bias = if rng.below(4) == 0 { 40 } else { 0 };
-            let ops: Vec<(String, &str)> = (0..nq).map(|_| operand(rng, bias)).collect();
-            let params: Vec<String> = (0..np).map(|i| if rng.below(2) == 0 { format!("{}.5", i) } else { format!("{}", i + 1) }).collect();
-            let pl = if np == 0 { String::new() } else { format!("({})", params.join(", ")) };
             // inv / pow modifiers do not change the arity rule
             let m = match rng.below(6) {
                 0 => "inv @ ",
@@ -101,9 +96,15 @@ fn gen_site(rng: &mut Rng, ctx_scope: char, n: &mut u32) -> Site {
                 2 => "inv @ pow(3) @ ",
                 _ => "",
             };
+            // (behind a modifier a gate call parses even without any operand)
+            let nq = if rng.below(3) == 0 { if m.is_empty() { 1 + rng.below(5) } else { rng.below(6) } } else { dnq };
+            let bias = if rng.below(4) == 0 { 40 } else { 0 };
+            let ops: Vec<(String, &str)> = (0..nq).map(|_| operand(rng, bias)).collect();
+            let params: Vec<String> = (0..np).map(|i| if rng.below(2) == 0 { format!("{}.5", i) } else { format!("{}", i + 1) }).collect();
+            let pl = if np == 0 { String::new() } else { format!("({})", params.join(", ")) };
             Site {
                 text: format!("{m}{name}{pl} {};", ops.iter().map(|o| o.0.clone()).collect::<Vec<_>>().join(", ")),
-                desc: format!("gc {callee} {np} {}", ops.iter().map(|o| o.1).collect::<Vec<_>>().join(",")),
+                desc: format!("gc {callee} {np} {}", if ops.is_empty() { "-".to_string() } else { ops.iter().map(|o| o.1).collect::<Vec<_>>().join(",") }),
             }
         }
         5 => {
